@@ -203,6 +203,8 @@ def lst(v):
 
 def monitor(case, line):
     """The property evaluated on an observed trace: None or text of the violation."""
+    if case.startswith("disp"):
+        return monitor_disp(case, line)
     if not case.startswith("pair"):
         return None
     c = parse_pair(case)
@@ -210,14 +212,45 @@ def monitor(case, line):
     if not kv or len(toks) != len(c["ops"]):
         return None
     wmax = {"A": c["ca"][4] or 4, "B": c["cb"][4] or 4}
+    maxr = {"A": c["ca"][2] or 5, "B": c["cb"][2] or 5}
+    orig = {"A": c["oa"], "B": c["ob"]}
+    subs = {"A": [], "B": []}
+    tx = {"A": {}, "B": {}}      # transmissions per body since the last dead callback
+    ever = {"A": set(), "B": set()}
     for op, tok in zip(c["ops"], toks):
         x = op[1]
+        if op[0] == "s":
+            subs[x].append(op.split(":")[1])
+        if "[" in tok and "]" in tok:
+            for q in [y for y in tok.split("[", 1)[1].split("]")[0].split(",") if y]:
+                if not q.startswith("z."):
+                    ever.setdefault(x, set()).add(q.split(".")[0])
+            for q in [y for y in tok.split("[", 1)[1].split("]")[0].split(",") if y]:
+                b, _, ns, _ = q.split(".")
+                if b == "z":
+                    continue
+                if subs[x].count(b) == 1 and int(ns) != (orig[x] + subs[x].index(b)) % 65536:
+                    return "side %s sent its submission #%d (%s) with Ns %s, expected %d: the peer can never accept it in order" % (
+                        x, subs[x].index(b), b, ns, (orig[x] + subs[x].index(b)) % 65536)
+                tx[x][b] = tx[x].get(b, 0) + 1
+                if maxr[x] >= 1 and tx[x][b] > maxr[x]:
+                    return "side %s transmitted message %s %d times, MaxRetries is %d" % (x, b, tx[x][b], maxr[x])
+        if tok.startswith("T") and tok.split("/")[0].endswith("!"):
+            if maxr[x] >= 1 and max(tx[x].values(), default=0) < maxr[x]:
+                return "side %s declared the tunnel dead at op %s although no message had been transmitted MaxRetries=%d times" % (x, op, maxr[x])
+            tx[x] = {}
         if op[0] == "w":
             wmax[x] = max(wmax[x], max(1, int(op.split(":")[1])))
         if "/" in tok:
             st = tok.rsplit("/", 1)[1].split(",")
             if len(st) >= 6 and int(st[5]) > max(wmax[x], 1):
                 return "side %s has %s messages in flight, peer window never exceeded %d" % (x, st[5], wmax[x])
+            if len(st) >= 7 and tok[:1] == "D" and tok[2:3] == "m" and st[6] == "z":
+                return "side %s processed a data message at op %s but no acknowledgement (ZLB timer) is scheduled" % (x, op)
+    for x in "AB":
+        for i in lst(kv.get("ack" + x, "")):
+            if int(i) < len(subs[x]) and subs[x][int(i)] not in ever[x]:
+                return "side %s treats its message #%s (%s) as acknowledged although it was never transmitted" % (x, i, subs[x][int(i)])
     if any(op[0] == "j" for op in c["ops"]):
         return None
     sub = {"A": [o.split(":")[1] for o in c["ops"] if o.startswith("sA")],
@@ -230,6 +263,38 @@ def monitor(case, line):
             if int(i) >= len(d):
                 return "%s treats its message #%s (%s) as acknowledged but it was never handed to %s's protocol machine" % (
                     snd, i, sub[snd][int(i)] if int(i) < len(sub[snd]) else "?", rcv)
+    return None
+
+
+def monitor_disp(case, line):
+    """Real Dispatch: exactly the in-order data messages reach the message switch, ZLBs never do."""
+    ops = case.split()[2:]
+    toks = line.split()
+    if len(toks) != len(ops) + 1:
+        return None
+    expect = 0
+    for op, tok in zip(ops, toks):
+        a = op.split(":")
+        if a[0] != "i":
+            continue
+        handed = tok.startswith("D1")
+        if a[1] == "z":
+            if handed:
+                return "Dispatch handed a ZLB to the message switch (%s)" % op
+            continue
+        if handed and int(a[2]) != expect:
+            return "Dispatch handed message Ns=%s to the protocol machine while Ns=%d was expected (duplicate or out of order)" % (a[2], expect)
+        if not handed and int(a[2]) == expect and tok.startswith("D0"):
+            # only a finding if the channel itself still expects this Ns (i.e. no ZLB moved Nr before)
+            try:
+                nr_after = int(tok.rsplit("/", 1)[1].split(",")[1])
+            except (IndexError, ValueError):
+                return None
+            if nr_after == expect:
+                return "Dispatch discarded the in-order message Ns=%d" % expect
+            return None   # Nr had drifted: the ZLB-through-Recv signature, left to the variant comparison
+        if handed:
+            expect = (expect + 1) % 65536
     return None
 
 
